@@ -157,11 +157,21 @@ pub fn connector(c: &ConnCfg) -> Connector {
             k = apply(k, which, true);
         }
     }
-    for which in shuffled(&mut r) {
-        k = apply(k, which, false);
+    // the hash (which cannot be taken back once set) goes in at a random place of the final pass
+    let order = shuffled(&mut r);
+    let hash_at = r.below(order.len() as u64 + 1) as usize;
+    for (i, which) in order.iter().enumerate() {
+        if i == hash_at {
+            if let Some(hh) = &c.hash {
+                k = k.set_password_hash(hh.clone());
+            }
+        }
+        k = apply(k, *which, false);
     }
-    if let Some(hh) = &c.hash {
-        k = k.set_password_hash(hh.clone());
+    if hash_at == order.len() {
+        if let Some(hh) = &c.hash {
+            k = k.set_password_hash(hh.clone());
+        }
     }
     k
 }
